@@ -1979,6 +1979,10 @@ impl Kanata {
                                     PRESSED_KEYS.lock().clear();
                                 }
                             }
+                            // `now` is 1ms in the past so that this iteration ticks once.
+                            let ms_blocked =
+                                now.saturating_duration_since(k.last_tick).as_millis() + 1;
+                            k.account_time_blocked(ms_blocked);
                             k.last_tick = now;
 
                             #[cfg(feature = "perf_logging")]
@@ -2172,6 +2176,13 @@ impl Kanata {
         is_idle && !counting_idle_ticks && passed_max_switch_timing_check && chordsv2_accepts_chords
     }
 
+    /// Accounts for time that passed without ticks because the processing loop was blocked
+    /// waiting for input while idle. State that measures time between input events must not
+    /// depend on whether the loop happened to be blocked.
+    pub fn account_time_blocked(&mut self, ms_blocked: u128) {
+        add_delay_to_record_state(&mut self.dynamic_macro_record_state, ms_blocked);
+    }
+
     pub fn is_idle(&self) -> bool {
         let pressed_keys_means_not_idle =
             !self.waiting_for_idle.is_empty() || self.live_reload_requested;
@@ -2197,8 +2208,6 @@ impl Kanata {
             && self.macro_on_press_cancel_duration == 0
             && self.move_mouse_state_horizontal.is_none()
             && self.dynamic_macro_replay_state.is_none()
-            // Delays between recorded events are counted in ticks.
-            && self.dynamic_macro_record_state.is_none()
             && self.caps_word.is_none()
             && self.vkeys_pending_release.is_empty()
             && !self.last_tick_had_activity
